@@ -44,8 +44,8 @@ theorem getNext_spec (lim : Limits) (s : Store) (sz : Nat → Nat) (r : Responde
     | (_, .endSession) => False := by
   unfold getNext
   by_cases hend : r.nextSend ≥ r.toSend.length
-  · simp only [hend, if_true]
-    exact ⟨by simp [Responder.pending, List.drop_eq_nil_iff.mpr hend], rfl, rfl⟩
+  · have hp : r.pending = [] := by simp [Responder.pending, List.drop_eq_nil_iff.mpr hend]
+    simp [hend, hp]
   · simp only [hend, if_false]
     have hne : r.pending ≠ [] := by
       simp only [Responder.pending, ne_eq, List.drop_eq_nil_iff]; omega
@@ -56,13 +56,14 @@ theorem getNext_spec (lim : Limits) (s : Store) (sz : Nat → Nat) (r : Responde
       unfold getCommands at hgc
       have hpre : (r.toSend.take r.nextSend).length = r.nextSend := by
         rw [List.length_take]; omega
-      rw [← hpre] at hgc
-      obtain ⟨h1, h2, h3, h4, _, _, _⟩ := gcLoop_spec lim s sz _ _ _ _ b hgc
+      obtain ⟨h1, h2, h3, h4, _, _, _⟩ :=
+        gcLoop_spec lim s sz (r.toSend.drop r.nextSend) (r.toSend.take r.nextSend) [] 0 b
+          (by rw [hpre]; exact hgc)
       rw [List.take_append_drop] at h1 h2 h3
       simp only [List.nil_append] at h1
-      refine ⟨hne, rfl, rfl, rfl, rfl, h1, h2, ?_, h4 (by simp)⟩
+      refine ⟨hne, by simp, by simp, by simp, by simp, h1, h2, ?_, h4 (by simp)⟩
       intro hcap
-      exact h3 hne (by simpa using hcap)
+      exact h3 hne (by simp only [List.length_nil]; omega)
 
 /-! ## sent_committed -/
 
@@ -175,87 +176,97 @@ def reqTrace : Requester → List PollOut → List (Except SErr (Option (List Na
   | _, [] => []
   | q, o :: os => (q.receive o).2 :: reqTrace (q.receive o).1 os
 
-/-- messages in index order are accepted by the requester -/
-theorem reqTrace_ok : ∀ (outs : List PollOut) (q : Requester),
-    (q.state = .start ∨ q.state = .waiting) → IndexOK q.nextIndex outs →
-    (∀ o ∈ outs, o ≠ .endSession) →
-    (∀ k (o : PollOut), outs[k]? = some o → (∃ m, o = .syncEnd m) →
-      ∀ j o', k < j → outs[j]? = some o' → (∀ i c, o' ≠ .response i c) ∧ (∀ m, o' ≠ .syncEnd m)) →
-    ∀ x ∈ reqTrace q outs, ∃ v, x = .ok v := by
-  intro outs
-  induction outs with
-  | nil => intro q _ _ _ _ x hx; simp [reqTrace] at hx
-  | cons o os ih =>
-    intro q hq hidx hne hafter x hx
-    simp only [reqTrace, List.mem_cons] at hx
+/-- everything `get_next` can answer, for either outcome of the buffer check -/
+theorem getNext_cases (lim : Limits) (s : Store) (sz : Nat → Nat) (q : Responder) (f : Bool) :
+    match getNext lim s sz q f with
+    | (q', .syncEnd m) => m = q.msgIndex ∧ q'.state = .idle ∧ q'.msgIndex = q.msgIndex
+    | (q', .response i _) => i = q.msgIndex ∧ q'.msgIndex = q.msgIndex + 1 ∧ q'.state = q.state
+    | (q', .err _) => q'.state = .reset
+    | (q', .tooSmall) => q' = q
+    | (_, .endSession) => False := by
+  unfold getNext
+  by_cases hend : q.nextSend ≥ q.toSend.length
+  · cases f <;> simp [hend]
+  · simp only [hend, if_false]
+    cases getCommands lim s sz q with
+    | error e => simp
+    | ok b => cases f <;> simp
+
+/-- responder and requester agree on the next index while the session is running -/
+def Synced (r : Responder) (q : Requester) : Prop :=
+  (r.state = .start ∨ r.state = .send) →
+    (q.state = .start ∨ q.state = .waiting) ∧ q.nextIndex = r.msgIndex
+
+theorem getNext_synced (lim : Limits) (s : Store) (sz : Nat → Nat) (r : Responder) (q : Requester)
+    (f : Bool) (hst : r.state = .send)
+    (h : (q.state = .start ∨ q.state = .waiting) ∧ q.nextIndex = r.msgIndex) :
+    (∃ v, (q.receive (getNext lim s sz r f).2).2 = .ok v) ∧
+      Synced (getNext lim s sz r f).1 (q.receive (getNext lim s sz r f).2).1 := by
+  have hc := getNext_cases lim s sz r f
+  cases hg : getNext lim s sz r f with
+  | mk r' o =>
+    rw [hg] at hc
     cases o with
-    | response i cmds =>
-      simp only [IndexOK] at hidx
-      have hrecv : q.receive (.response i cmds) =
-          ({ state := .waiting, nextIndex := q.nextIndex + 1 }, .ok (some cmds)) := by
-        simp [Requester.receive, hq, hidx.1]
-      rcases hx with hx | hx
-      · rw [hrecv] at hx; exact ⟨_, hx⟩
-      · rw [hrecv] at hx
-        refine ih _ (Or.inr rfl) hidx.2 (fun o ho => hne o (List.mem_cons_of_mem _ ho)) ?_ x hx
-        intro k o hk hs j o' hkj hj
-        exact hafter (k + 1) o (by simpa using hk) hs (j + 1) o' (by omega) (by simpa using hj)
     | syncEnd m =>
-      simp only [IndexOK] at hidx
-      have hrecv : q.receive (.syncEnd m) = ({ q with state := .partialSync }, .ok none) := by
-        simp [Requester.receive, hq, hidx.1]
-      rcases hx with hx | hx
-      · rw [hrecv] at hx; exact ⟨_, hx⟩
-      · rw [hrecv] at hx
-        -- after the end only failures / not-ready answers follow, which the requester never sees
-        have hrest : ∀ o' ∈ os, (∀ i c, o' ≠ .response i c) ∧ (∀ m, o' ≠ .syncEnd m) := by
-          intro o' ho'
-          obtain ⟨j, hj, hjo⟩ := List.mem_iff_getElem.mp ho'
-          exact hafter 0 (.syncEnd m) rfl ⟨m, rfl⟩ (j + 1) o' (by omega)
-            (by simp [List.getElem?_eq_getElem hj, hjo])
-        clear ih hafter hidx hrecv
-        generalize hq' : ({ q with state := QState.partialSync } : Requester) = q' at hx
-        clear hq'
-        induction os generalizing q' with
-        | nil => simp [reqTrace] at hx
-        | cons o' os' ih' =>
-          simp only [reqTrace, List.mem_cons] at hx
-          have h1 := hrest o' (List.mem_cons_self ..)
-          have h2 := hne o' (List.mem_cons_of_mem _ (List.mem_cons_self ..))
-          have hr : q'.receive o' = (q', .ok none) := by
-            cases o' with
-            | response i c => exact absurd rfl (h1.1 i c)
-            | syncEnd m' => exact absurd rfl (h1.2 m')
-            | endSession => exact absurd rfl h2
-            | tooSmall => rfl
-            | err e => rfl
-          rcases hx with hx | hx
-          · rw [hr] at hx; exact ⟨_, hx⟩
-          · rw [hr] at hx
-            exact ih' (fun o ho => hne o (by
-                rcases List.mem_cons.mp ho with rfl | ho
-                · exact List.mem_cons_self ..
-                · exact List.mem_cons_of_mem _ (List.mem_cons_of_mem _ ho)))
-              (fun o ho => hrest o (List.mem_cons_of_mem _ ho)) q' hx
-    | endSession => exact absurd rfl (hne _ (List.mem_cons_self ..))
-    | tooSmall =>
-      have hrecv : q.receive .tooSmall = (q, .ok none) := rfl
-      simp only [IndexOK] at hidx
-      rcases hx with hx | hx
-      · rw [hrecv] at hx; exact ⟨_, hx⟩
-      · rw [hrecv] at hx
-        refine ih _ hq hidx (fun o ho => hne o (List.mem_cons_of_mem _ ho)) ?_ x hx
-        intro k o hk hs j o' hkj hj
-        exact hafter (k + 1) o (by simpa using hk) hs (j + 1) o' (by omega) (by simpa using hj)
+      obtain ⟨h1, h2, _⟩ := hc
+      have : q.receive (.syncEnd m) = ({ q with state := .partialSync }, .ok none) := by
+        simp [Requester.receive, h.1, h1, h.2]
+      simp only [this]
+      exact ⟨⟨_, rfl⟩, fun hh => by rw [h2] at hh; simp at hh⟩
+    | response i cmds =>
+      obtain ⟨h1, h2, h3⟩ := hc
+      have : q.receive (.response i cmds) =
+          ({ state := .waiting, nextIndex := q.nextIndex + 1 }, .ok (some cmds)) := by
+        simp [Requester.receive, h.1, h1, h.2]
+      simp only [this]
+      exact ⟨⟨_, rfl⟩, fun _ => ⟨Or.inr rfl, by simp [h2, h.2]⟩⟩
     | err e =>
-      have hrecv : q.receive (.err e) = (q, .ok none) := rfl
-      simp only [IndexOK] at hidx
-      rcases hx with hx | hx
-      · rw [hrecv] at hx; exact ⟨_, hx⟩
-      · rw [hrecv] at hx
-        refine ih _ hq hidx (fun o ho => hne o (List.mem_cons_of_mem _ ho)) ?_ x hx
-        intro k o hk hs j o' hkj hj
-        exact hafter (k + 1) o (by simpa using hk) hs (j + 1) o' (by omega) (by simpa using hj)
+      refine ⟨⟨_, rfl⟩, fun hh => ?_⟩
+      simp only at hc; rw [hc] at hh; simp at hh
+    | tooSmall =>
+      simp only at hc
+      refine ⟨⟨_, rfl⟩, fun _ => ?_⟩
+      rw [hc]; exact h
+    | endSession => exact hc.elim
+
+theorem poll_synced (lim : Limits) (s : Store) (heads : List Loc) (sz : Nat → Nat) (r : Responder)
+    (q : Requester) (f : Bool) (h : Synced r q) :
+    (∃ v, (q.receive (poll lim s heads sz r f).2).2 = .ok v) ∧
+      Synced (poll lim s heads sz r f).1 (q.receive (poll lim s heads sz r f).2).1 := by
+  unfold poll pollG
+  cases hst : r.state with
+  | new => exact ⟨⟨_, rfl⟩, fun hh => by simp [hst] at hh⟩
+  | idle => exact ⟨⟨_, rfl⟩, fun hh => by simp [hst] at hh⟩
+  | stopped => exact ⟨⟨_, rfl⟩, fun hh => by simp [hst] at hh⟩
+  | reset =>
+    cases f
+    · exact ⟨⟨_, rfl⟩, fun hh => by simp at hh⟩
+    · exact ⟨⟨_, rfl⟩, fun hh => by simp at hh⟩
+  | send => exact getNext_synced lim s sz r q f hst (h (Or.inr hst))
+  | start =>
+    simp only
+    cases findNeededG specOps lim s heads r.has with
+    | error e =>
+      refine ⟨⟨_, rfl⟩, fun _ => ?_⟩
+      exact h (Or.inl hst)
+    | ok ts =>
+      exact getNext_synced lim s sz { r with state := .send, toSend := ts } q f rfl (h (Or.inl hst))
+
+/-- **The requester's order check never fails on what the responder sends**: feed the messages of
+any sequence of polls, in order, to a requester that expects the responder's `message_index` (a
+fresh pair: both 0); every `get_sync_commands` call succeeds. -/
+theorem session_accepted (lim : Limits) (s : Store) (heads : List Loc) (sz : Nat → Nat)
+    (fs : List Bool) : ∀ (r : Responder) (q : Requester), Synced r q →
+      ∀ x ∈ reqTrace q (trace lim s heads sz r fs), ∃ v, x = .ok v := by
+  induction fs with
+  | nil => intro r q _ x hx; simp [trace, reqTrace] at hx
+  | cons f fs ih =>
+    intro r q h x hx
+    obtain ⟨⟨v, hv⟩, hs⟩ := poll_synced lim s heads sz r q f h
+    simp only [trace, reqTrace, List.mem_cons] at hx
+    rcases hx with hx | hx
+    · exact ⟨v, hx.trans hv⟩
+    · exact ih _ _ hs x hx
 
 /-! ## no loss on retry -/
 
@@ -473,7 +484,7 @@ def ToSendOK (s : Store) (cov : Loc → Prop) (ts : List Loc) : Prop :=
   ∀ k e, ts[k]? = some e →
     (∃ g, s.seg? e.seg = some g ∧ g.first ≤ e.mc) ∧
     ∀ p ∈ s.parents e, cov p ∨
-      ∃ k' e', k' < k ∧ ts[k']? = some e' ∧ e'.seg = p.seg ∧ e'.mc ≤ p.mc ∧ s.valid p = true
+      ∃ (k' : Nat) (e' : Loc), k' < k ∧ ts[k']? = some e' ∧ e'.seg = p.seg ∧ e'.mc ≤ p.mc ∧ s.valid p = true
 
 theorem mem_entryLocs {s : Store} {e x : Loc} :
     x ∈ entryLocs s e ↔ x.seg = e.seg ∧ e.mc ≤ x.mc ∧ x.mc < e.mc + (entryIds s e).length := by
@@ -569,9 +580,11 @@ theorem parents_first (s : Store) (cov : Loc → Prop) (ts : List Loc) (hok : To
       have hsplit : ∃ pre', pre = entryLocs s e ++ pre' ∧
           List.flatMap (entryLocs s) rest = pre' ++ x :: post := by
         refine ⟨pre.drop (entryLocs s e).length, ?_, ?_⟩
-        · have := congrArg (List.take (entryLocs s e).length) h
-          rw [List.take_left', List.take_append_of_le_length (by omega)] at this
-          · rw [this, List.take_append_drop]
+        · have h2 := congrArg (List.take (entryLocs s e).length) h
+          rw [List.take_left', List.take_append_of_le_length (by omega)] at h2
+          · calc pre = pre.take (entryLocs s e).length ++ pre.drop (entryLocs s e).length :=
+                  (List.take_append_drop _ _).symm
+              _ = _ := by rw [← h2]
           · rfl
         · have := congrArg (List.drop (entryLocs s e).length) h
           rw [List.drop_left', List.drop_append_of_le_length (by omega)] at this
@@ -607,6 +620,7 @@ example : trace { exLim with responseMax := 2 } exStore [⟨7, 7⟩] (fun _ => 1
     [.response 4 [12, 13], .response 5 [14, 15], .response 6 [16, 17], .syncEnd 7] := by decide
 
 example : ToSendOK exStore (fun l => l = ⟨1, 0⟩ ∨ l = ⟨0, 0⟩) [⟨2, 0⟩, ⟨5, 7⟩] := by
+  unfold ToSendOK
   intro k e hk
   match k, hk with
   | 0, hk =>
@@ -625,6 +639,7 @@ example : ToSendOK exStore (fun l => l = ⟨1, 0⟩ ∨ l = ⟨0, 0⟩) [⟨2, 0
     exact Or.inr ⟨0, ⟨2, 0⟩, by omega, rfl, rfl, by decide, by decide⟩
   | k + 2, hk => simp at hk
 
-example : (findNeeded exLim exStore [⟨7, 7⟩] [⟨11, 1⟩]) = .ok [⟨2, 0⟩, ⟨5, 7⟩] := by decide
+example : (match findNeeded exLim exStore [⟨7, 7⟩] [⟨11, 1⟩] with | .ok l => l | .error _ => []) = [⟨2, 0⟩, ⟨5, 7⟩] := by
+  decide
 
 end AranyaV.Sync
